@@ -55,6 +55,23 @@ func (s *Store) Allow(ID string, expiresAt int64) {
 	s.AllowList[ID] = expiresAt
 }
 
+// AllowIfNotDenied tracks the ID as allowed unless it is currently denied,
+// as one atomic step; it returns false, changing nothing, if the ID is denied.
+// (Checking IsDenied and then calling Allow would let a Deny arriving in
+// between be silently erased.)
+func (s *Store) AllowIfNotDenied(ID string, expiresAt int64) bool {
+	s.Lock()
+	defer s.Unlock()
+
+	if _, denied := s.DenyList[ID]; denied {
+		return false
+	}
+
+	s.AllowList[ID] = expiresAt
+
+	return true
+}
+
 // Deny adds and ID to the deny list
 func (s *Store) Deny(ID string, expiresAt int64) {
 	s.Lock()
